@@ -126,7 +126,9 @@ func (Engine) Generate(prop string, r *kit.Rand, tier string) *kit.Scenario[Conf
 	}
 	// store-level differential operations
 	if r.Chance(0.5) {
-		names := []string{"/s/a/v=1/seg=0", "/s/a/v=2/seg=0", "/s/a/v=2/seg=1", "/s/b/v=3/seg=0", "/s/a/32=metadata/v=1/seg=0", "/s/a/32=metadata/v=2/seg=0"}
+		// (the last two: names whose text - not whose components - begins like another name's or another version's)
+		names := []string{"/s/a/v=1/seg=0", "/s/a/v=2/seg=0", "/s/a/v=2/seg=1", "/s/b/v=3/seg=0", "/s/a/32=metadata/v=1/seg=0", "/s/a/32=metadata/v=2/seg=0",
+			"/s/a/v=21/seg=0", "/s/ab/v=1/seg=0"}
 		n := r.Range(2, 14)
 		for i := 0; i < n; i++ {
 			o := Op{Op: "storeop", SName: kit.Pick(r, names)}
@@ -142,7 +144,7 @@ func (Engine) Generate(prop string, r *kit.Rand, tier string) *kit.Scenario[Conf
 			case 1:
 				o.SOp = "remove"
 			case 2:
-				o.SOp, o.SName = "removeprefix", kit.Pick(r, []string{"/s/a", "/s/a/v=2", "/s/b", "/s"})
+				o.SOp, o.SName = "removeprefix", kit.Pick(r, []string{"/s/a", "/s/a/v=2", "/s/a/v=2", "/s/b", "/s"})
 			case 3:
 				o.SOp = "get"
 			case 4:
